@@ -9,6 +9,7 @@ monotone eccentric angle with total = delta-theta, .sweep / .rx / .ry / rotation
 """
 import math
 
+from mc import scribble
 from mc.core import Outcome, SubCheck
 from mc.product import Concat, Mapped, Product
 from ref import arcspec
@@ -174,6 +175,9 @@ class Endpoint(SubCheck):
                 else:
                     arc = make(svg, entry, s, case["rx"], case["ry"], case["rot"], case["fa"], case["fs"], e)
                     check_arc(out, arc, ref, tags)
+                # this caller is done checking and goes on using ITS arc (moves its points in place, flips it): the next
+                # entry point builds an arc from the very same arguments and must get an untouched one
+                scribble.scribble(svg, arc)
             except Exception as ex:  # noqa
                 out.fail("%s raised %s" % (entry, type(ex).__name__), None, repr(ex), kind="exception", **tags)
             out.traces += 1
